@@ -1079,15 +1079,20 @@ impl<F: Read + Write + Seek> CompoundFile<F> {
                 dir_entry.stream_len < consts::MINI_STREAM_CUTOFF as u64,
             )
         };
+        // Remove the directory entry before releasing the stream's sectors,
+        // so that an I/O error half-way cannot leave behind an entry that
+        // points at released sectors (a later call on that entry would
+        // release them a second time, when they may already belong to
+        // another stream).
+        debug_assert!(!names.is_empty());
+        let name = names.pop().unwrap();
+        let parent_id = self.stream_id_for_name_chain(&names).unwrap();
+        self.minialloc_mut().remove_dir_entry(parent_id, name)?;
         if is_in_mini_stream {
             self.minialloc_mut().free_mini_chain(start_sector_id)?;
         } else {
             self.minialloc_mut().free_chain(start_sector_id)?;
         }
-        debug_assert!(!names.is_empty());
-        let name = names.pop().unwrap();
-        let parent_id = self.stream_id_for_name_chain(&names).unwrap();
-        self.minialloc_mut().remove_dir_entry(parent_id, name)?;
         Ok(())
     }
 
